@@ -1261,3 +1261,77 @@ def value_returns(func):
             n += 1
         stack.extend(ast.iter_child_nodes(x))
     return n
+
+
+# ------------------------------------------------------------------ N15: renamed module-level functions
+def module_function_renames(short, tree):
+    """{current name: reference name} for top-level functions that exist under another name in the reference module: a function of the
+    current module that the reference does not have is matched with a reference function the current module does not have when their
+    bodies have the same shape (name-abstracted statements, ratio >= 0.75), the same number of parameters, and the match is unique both
+    ways.  Renaming a function consistently (definition, uses, imports) is alpha-conversion at module level."""
+    ref = reference_functions(short)
+    if not ref:
+        return {}
+    cur = {n.name: n for n in tree.body if isinstance(n, ast.FunctionDef)}
+    c_only = [n for k, n in cur.items() if k not in ref]
+    r_only = [n for k, n in ref.items() if k not in cur]
+    if not c_only or not r_only:
+        return {}
+
+    def key(f):
+        g = copy.deepcopy(f)
+        normalise(g)
+        locs = locals_of(g) | params_of(g)
+        return [shape(s_, locs, shallow=True) for s_ in ast.walk(g) if isinstance(s_, ast.stmt) and s_ is not g]
+    ck = {f.name: key(f) for f in c_only}
+    rk = {f.name: key(f) for f in r_only}
+    scores = {}
+    for c in c_only:
+        for r in r_only:
+            if len(c.args.args) != len(r.args.args):
+                continue
+            scores[(c.name, r.name)] = difflib.SequenceMatcher(None, ck[c.name], rk[r.name], autojunk=False).ratio()
+    out = {}
+    for (c, r), v in sorted(scores.items(), key=lambda kv: -kv[1]):
+        if v < 0.75 or c in out or r in out.values():
+            continue
+        # unique: no other candidate within 0.1 for either side
+        rivals = [w for (c2, r2), w in scores.items() if (c2 == c) != (r2 == r) and w > v - 0.1]
+        if rivals:
+            continue
+        out[c] = r
+    return out
+
+
+def apply_function_renames(short, tree, all_renames, pkg_of=None):
+    """rename definitions and uses in the defining module; rewrite `from <module> import <new>` and the uses in importing modules"""
+    acts = []
+    own = all_renames.get(short, {})
+    ren = dict(own)
+    for n in tree.body:
+        if isinstance(n, ast.ImportFrom) and n.module is not None or isinstance(n, ast.ImportFrom):
+            base = n.module or ""
+            if n.level:
+                pkg = short.split(".")[:-1]
+                up = n.level - 1
+                if up:
+                    pkg = pkg[:-up]
+                base = ".".join([p for p in pkg if p] + ([base] if base else []))
+            elif base.startswith("tangermeme."):
+                base = base[len("tangermeme."):]
+            m = all_renames.get(base)
+            if m:
+                for a in n.names:
+                    if a.name in m:
+                        if a.asname is None:
+                            ren[a.name] = m[a.name]
+                        a.name = m[a.name]
+    if not ren:
+        return acts
+    for n in ast.walk(tree):
+        if isinstance(n, ast.FunctionDef) and n in tree.body and n.name in own:
+            acts.append("function %s->%s" % (n.name, own[n.name]))
+            n.name = own[n.name]
+        elif isinstance(n, ast.Name) and n.id in ren:
+            n.id = ren[n.id]
+    return acts
